@@ -17,6 +17,7 @@ def load(prop):
 
 
 def run_one(prop, tier, seed, replay=None):
+    core.ensure_generated()
     mod = load(prop)
     ctx = core.Ctx(prop, tier, seed)
     try:
